@@ -15,14 +15,27 @@ from engine import circuits as cz
 from engine import project as pj
 
 
-def solve(graph, rep, backend, setting=1, again=False):
+def shuffled_insertion(rng, g):
+    """the same state handed over as a graph whose nodes were INSERTED in another order than their labels: the library's
+    convention is qubit k = k-th inserted node, so the labels are permuted along (position view = g)."""
+    n = g.number_of_nodes()
+    order = list(range(n))
+    while n >= 2 and order == list(range(n)):
+        rng.shuffle(order)
+    h = nx.Graph()
+    h.add_nodes_from(order)
+    h.add_edges_from((order[a], order[b]) for a, b in g.edges())
+    return h
+
+
+def solve(graph, rep, backend, setting=1, again=False, view=None):
     """-> (record for Trace_CircuitAll, circuit or None)"""
     from graphiq.backends.stabilizer.compiler import StabilizerCompiler
     from graphiq.backends.density_matrix.compiler import DensityMatrixCompiler
     from graphiq.metrics import Infidelity
     from graphiq.solvers.time_reversed_solver import TimeReversedSolver
     n = graph.number_of_nodes()
-    tg = {"n": n, "edges": cz.graph_edges1(graph), "map": []}
+    tg = {"n": n, "edges": cz.graph_edges1(view if view is not None else graph), "map": []}
     dummy = {"nq": n, "nc": 0, "np": n, "ne": 0, "ops": [], "wires": {}}
     try:
         target = cz.target_state(graph, rep)
@@ -80,6 +93,14 @@ def run(ctx):
         for rep, backend in choices:
             if n > 4 and (rep == "dm" or backend == "dm"):
                 continue           # density-matrix legs are bounded to 4 photons (+ emitters)
+            if gi % 4 == 1 and n >= 3 and g.number_of_edges() > 0 and not any(d == 0 for _, d in g.degree()):
+                # every fourth target also as a graph with a shuffled insertion order (same state, position view g)
+                rec2, _c2 = solve(shuffled_insertion(rng, g), rep, backend, setting=rng.choice([0, 1, 2]), view=g)
+                tid += 1
+                rec2.update({"tid": tid, "events": [], "meta": {"n": n, "edges": rec2["target"]["edges"], "rep": rep,
+                                                                 "backend": backend, "err": rec2["err"], "isolated": False,
+                                                                 "insertion": "shuffled"}})
+                recs.append(rec2)
             rec, circuit = solve(g, rep, backend, setting=rng.choice([0, 1, 2]), again=(gi % 5 == 3))
             tid += 1
             rec["tid"] = tid
